@@ -106,15 +106,15 @@ CHECKS = [
   "for every pair (thorough: also 8 triples) of activities from {VM processing three lines incl. creating and deleting label tuples, Store.Gc with a limit and an expired datum, Collect, HandleJSON, HandleVarz, HandleGraphite, push writer, reload (compile edited source, Store.Add, first line on the new VM)} on one store: all schedules with <=1 (thorough 2) deviations of the instrumented real metrics, datum, exporter and vm code, where every synchronisation operation and every access to a hooked shared field (Metric.LabelValues/labelValuesMap/Source/Limit/Buckets/Keys, LabelValue.Expiry/Value/Labels, Store.Metrics, String.Value, Buckets.Buckets/Count/Sum, VM.runtimeError/terminate/input) is a scheduling point; oracles: no pair of conflicting accesses unordered by the happens-before relation of mtail's own synchronisation (source-level vector clocks; scheduler hand-offs add no edge), no deadlock or panic, the audited counter equals the increments issued, an exported value of it lies in the range it ever held",
   "deviation bound, not full interleaving coverage; memory-order effects on fields that are not hooked are outside the detector; races are identified by field and the pair of (file, function) sites",
   "stateless model checking of the implementation under a controlled scheduler with a source-level happens-before race detector", "§3 C11"),
- ("C17", "seqx", "exploration",
-  "for each of named pipe, unix and tcp stream sockets, unixgram and udp datagram sockets, on real kernel objects: a cancellation with no writer, and 1-2 writers (thorough 3) with every script of <=2 writes over {complete line, unterminated fragment, zero-length datagram (datagram sockets)} ending in close, every interleaving of the scripts, cancellation at the end (single writer and thorough: at every position), in settled mode (wait until the lines completed so far were delivered, and for a pipe's natural end) and burst mode; each event order runs in a crash-isolated worker process and a failure must reproduce three times: newline-terminated data arrives as lines in write order per connection / pipe, the tail of a connection or pipe that its writer closed arrives once, no delivered line mixes bytes of two connections or senders, the output ends after writer close (pipe) or cancellation, all goroutines finish, the process does not crash",
-  "the goroutine schedule inside the stream relative to the kernel (network poller) is NOT controlled: only the order of environment events is exhaustive, so schedule-dependent defects are found when the kernel happens to produce them; framing under all chunkings is C15; stdin shares the fifo code path",
-  "exhaustive enumeration of environment event orders on real kernel objects (not a controlled-scheduler exploration: see level_note)", "§3 C17, §6"),
+ ("C17", "gosim", "exploration",
+  "two parts, both run by the one command. (1) schedule part, harness/C17S: mtail's real socket, datagram, named-pipe and stdin streams run under the controlled scheduler over a simulated kernel (engine/vnet: listen/accept/read/readfrom/deadline/close as scheduling points; its rules are first compared step by step with real unix, tcp, unixgram, udp and fifo objects by a conformance run); one environment thread executes every event order of {connect, write line / fragment / empty datagram, close} for 1 writer with <=2 (thorough 3) writes and 2 writers with <=1 (thorough 2) writes each, with a cancellation at every position (two writers quick: at the end), settled (stream idle and woken after every event) and free-running; all schedules of the stream's goroutines {accept loop, closer, connection handlers, deadline setters, reader} against it with <=3 (single writer; thorough 4) / <=1 (two writers; thorough 3) deviations; exact oracle from the bytes each simulated Read returned: delivered lines = their framing per connection, each once, in order, the remainder once at the end; everything written is read when the stream was idle after every event; the output ends only after cancellation (or, for a pipe, after its writers closed), every goroutine finishes, no deadlock, livelock (step limit with fair treatment of polling loops) or panic. (2) real-kernel part, harness/C17: the same kinds of event orders (1-2 writers, thorough 3; plus zero-length and 100 000 / 60 000-byte datagrams) on real kernel objects in crash-isolated worker processes, settled and burst, a failure having to reproduce three times",
+  "part 1 owns the schedule but trusts the simulated kernel (kept small, conformance-checked on every run; read deadlines other than 'now' and short reads are not modelled; framing under all chunkings is C15); part 2 uses the real kernel but not a controlled schedule. Wake-ups are issued while the stream is otherwise idle. Standard input is driven in part 1 only",
+  "stateless model checking of the implementation under a controlled scheduler over a conformance-checked simulated kernel (iterative deviation bounding, DFS, replay-confirmed counterexamples), plus exhaustive enumeration of environment event orders on real kernel objects", "§3 C17, §6, §8"),
 ]
 
 ENGINES = [
  {"name": "seqx", "path": "engine/seqx", "kind_free_text": "bounded exhaustive enumeration of inputs and explicit-state BFS over operation histories of sequential code against reference models; every transition executes the real code"},
- {"name": "gosim", "path": "engine/vrt + engine/instrument", "kind_free_text": "source-level instrumentation (sync, atomic, go, channel operations, select) + cooperative controlled scheduler + stateless DFS with iterative preemption bounding over the real mtail code"},
+ {"name": "gosim", "path": "engine/vrt + engine/instrument", "kind_free_text": "source-level instrumentation (sync, atomic, go, channel operations, select; optionally the kernel seams of the log streams redirected to the simulated kernel engine/vnet) + cooperative controlled scheduler + stateless DFS with iterative preemption bounding over the real mtail code"},
  {"name": "hsx", "path": "engine/hsx + engine/vrt", "kind_free_text": "multi-process explicit-state BFS over operation histories of real mtail components running under the gosim scheduler (quiescence barrier after every step); every transition replays the history on a fresh instance in a worker process; states de-duplicated on observable state plus a reflective dump of the implementation object graph"},
  {"name": "mtlgen", "path": "engine/mtl + harness/shared/ctxgen", "kind_free_text": "exhaustive typed program enumerator and an independent reference interpreter for the mtail language"},
 ]
